@@ -153,7 +153,7 @@ UPD_SUMMARY = dict(          # FullControlT::updatePlan as seen from C_ (the thr
              'self->_b0._b0._b0._core->planData.planExists == __CPROVER_old(self->_b0._b0._b0._core->planData.planExists)',
              '(self->_b0._b0._b0._core->request._b0.destination == 255 || self->_b0._b0._b0._core->request._b0.destination < %s || %s)' % (N, t_eq('self->_b0._b0._b0._core->request', '__CPROVER_old(self->_b0._b0._b0._core->request)')),
              'g_clock >= __CPROVER_old(g_clock) && g_clock <= __CPROVER_old(g_clock) + 500', 'self->_b0._b0._b0._originId == 255'])
-WIDE_UP = dict(requires=['{p-1} < ' + N], assigns=[], ensures=['__CPROVER_return_value.result == ' + STATUS_OF('{p-1}')])
+WIDE_UP = dict(requires=['{p-1} < ' + N], assigns=[], ensures=[('C08,C09', '__CPROVER_return_value.result == ' + STATUS_OF('{p-1}'))])
 DUP_RECS = dict(UP_RECS); DUP_RECS.update({'CS_': r'^ffsm2::detail::CS_<0,.*,0,ffsm2::detail::TL_<A,B,C>>$', 'C_': r'^ffsm2::detail::C_<'})
 EFFECTIVE = '(__CPROVER_old(%s.subStatus.result) > %s ? __CPROVER_old(%s.subStatus.result) : %s)' % (FPD, '__CPROVER_old(%s)' % STATUS_OF(ACTV) if False else 'g_status_act', FPD, 'g_status_act')
 UNITS += [
@@ -184,7 +184,8 @@ UNITS += [
 
 # ---- S_::deepUpdatePlans / CS_::wideUpdatePlans: the report bits of exactly that state
 S_UP = dict(requires_target=[fresh('self'), fresh('control'), fresh(FCORE, '*' + FCORE)], requires=['S___STATE_ID < ' + N], assigns=[],
-            ensures=[('C08', '__CPROVER_return_value.result == ' + STATUS_OF('S___STATE_ID'))])
+            # C09: an outstanding failure report dominates a success report of the same state
+            ensures=[('C08,C09', '__CPROVER_return_value.result == ' + STATUS_OF('S___STATE_ID'))])
 BITS_CONSTS = dict(UP_CONSTS); BITS_CONSTS['TL___sizeof_Ts'] = ('range', 1, 255)
 def bits_unit(id_, cls, name, nparams, contracts, recs, consts, **kw):
     u = dict(id='plans.' + id_, witness=W, recs=recs, opaque=[r'^Ctx$', r'LoggerInterfaceT<'], props=['C08', 'C14', 'C18'],
